@@ -23,7 +23,14 @@ def run(chk, tier):
     chk.floor("R-BIND", "explicit-target scenarios (function x PROCESS/THREAD)", nde, 8)
     chk.rule("R-PAIR", "x86 discovery restores the binding it saved on every path (look_procs), OS state save/restore paired")
     pair.run_c10(chk, P, E)
-    chk.decided += ["unknown flag bits rejected with EINVAL before any effect (all entry points, all words)",
+    chk.rule("R-OUTDEF", "the set a binding getter hands back is defined (zero/copy/only/...) before anything is accumulated into it (set/or/set_ith_ulong): the get_* hooks of the Linux backend, their callees "
+             "and callbacks are explored as a first invocation (integer parameters 0); a defining call on the same output must have been executed before every accumulating call")
+    import outdef
+    nod, roots = outdef.run(chk, P)
+    chk.floor("R-OUTDEF", "accumulating calls into getter outputs", nod, 5)
+    chk.floor("R-OUTDEF", "get_* hooks installed by the Linux backend", len(roots), 6)
+    chk.decided += ["the binding read back depends only on OS state, not on what the caller's bitmap held before (outputs defined before accumulation, Linux backend)",
+                    "unknown flag bits rejected with EINVAL before any effect (all entry points, all words)",
                     "empty / non-included sets rejected, covering set replaced (fixer structure + every set-hook argument routed through a fixer)",
                     "ENOSYS/errno on every failure path", "foreign topologies: dummy hooks complete, effect-free, report the complete set",
                     "load leaves the caller's binding as found (save/restore pairing in x86 discovery; no other set-binding call reachable from discovery)"]
